@@ -56,6 +56,39 @@ int vrt_is_freed(const void *p);
 /* treat [p, p+n) as freed memory as well (for objects not obtained from malloc) */
 void vrt_poison(const void *p, size_t n);
 
+
+/* suppress announcements/scheduling points of the calling thread (oracle code at the end) */
+void vrt_quiet_begin(void);
+void vrt_quiet_end(void);
+
+/* ---- histories and linearizability (vrt_hist.c, uninstrumented) ---------------------------- */
+#define VRT_HIST_MAX 24
+struct vrt_hop {
+	int tid, op;
+	long a0, a1;
+	long ret, ret2;
+	unsigned long call, rett;	/* event sequence numbers; rett == 0: still pending */
+};
+/* records the call (after a scheduling point); returns the index of the entry */
+int vrt_h_call(int op, long a0, long a1);
+int vrt_h_add(int op, long a0, long a1);
+void vrt_h_ret(int idx, long ret);
+void vrt_h_ret2(int idx, long ret, long ret2);
+int vrt_h_count(void);
+struct vrt_hop *vrt_h_get(int idx);
+void vrt_h_dump(char *buf, size_t n);
+
+struct vrt_lin_spec {
+	size_t state_size;				/* <= 256 */
+	void (*init)(void *st);
+	/* return 1 and update st iff op (with its recorded result) is legal in state st */
+	int (*apply)(void *st, const struct vrt_hop *op);
+};
+/* 1 iff the recorded (complete) history is linearizable w.r.t. spec */
+int vrt_lin_check(const struct vrt_lin_spec *spec);
+/* convenience: fail the execution with the dumped history if not linearizable */
+void vrt_lin_assert(const struct vrt_lin_spec *spec, const char *what);
+
 /* ---- progress (C17): solo runs ------------------------------------------------------------- */
 /* from now on only the calling thread is scheduled; any blocking/yield is a violation */
 void vrt_solo_begin(const char *what, unsigned long max_steps);
